@@ -28,6 +28,16 @@ struct Nested {
     hash: Option<Hash>,
 }
 
+/// A value whose serialisation fails after some bytes were already emitted (hostile / broken
+/// application types exist; what happened earlier on a thread must never leak into a header).
+struct FailsLate;
+
+impl Serialize for FailsLate {
+    fn serialize<S: serde::Serializer>(&self, _s: S) -> Result<S::Ok, S::Error> {
+        Err(serde::ser::Error::custom("refuses to serialise"))
+    }
+}
+
 pub struct Fields {
     pub key: SigningKey,
     pub payload: Option<Vec<u8>>,
@@ -168,6 +178,14 @@ pub fn run(args: &Args) {
         let mut rng = Rng::fork(args.seed, i);
         let f = gen_fields(&mut rng);
         let kind_ix = (i % 5) as u8;
+        if i % 7 == 3 {
+            // "when or how the value was built": a failed encode on this thread right before.
+            let r = p2panda_core::cbor::encode_cbor(&("attachment", 42u8, vec![1u8, 2, 3], FailsLate));
+            if r.is_ok() {
+                rep.inconclusive("the deliberately failing encode succeeded");
+            }
+            rep.bump("headers_encoded_right_after_a_failed_encode", 1);
+        }
         let shape = (f.payload.is_some(), match f.seq_num { 0 => 0u8, 1 => 1, u32::MAX => 3, _ => 2 });
         let wit = |bytes: Vec<u8>| {
             let seed = args.seed;
